@@ -506,5 +506,9 @@ def _canon(r):
     if isinstance(r, (list, tuple)):
         return "[" + ", ".join(_canon(x) for x in r) + "]"
     if isinstance(r, (int, float)) and not isinstance(r, bool):
+        if r != r or r in (float("inf"), float("-inf")):
+            return repr(float(r))
+        if r == int(r):
+            return "%d.0" % int(r)          # one spelling per number: 1 and 1.0, 0 and -0.0; integers of any size exactly
         return repr(float(r))
     return repr(r)
